@@ -39,11 +39,12 @@ pub fn workload(max_shapes: usize, shx_samples: u16) -> BoxedStrategy<Workload> 
             } else {
                 gen::geom(ty, cfg)
             };
-            let max_n = if big == 0 { 2 } else { max_shapes };
-            (1..=max_n).prop_flat_map(move |n| {
+            // one workload in twelve writes 40-80 small shapes (the length fields then change in their higher bytes)
+            let (min_n, max_n) = if big == 0 { (1, 2) } else if big == 1 { (40, 80) } else { (1, max_shapes) };
+            (min_n..=max_n).prop_flat_map(move |n| {
                 (
                     proptest::collection::vec(g.clone(), n),
-                    proptest::collection::vec(prop_oneof![5 => Just(0u8), 3 => Just(1u8), 1 => Just(2u8)], n + 1),
+                    proptest::collection::vec(if n > 10 { prop_oneof![30 => Just(0u8), 1 => Just(1u8)].boxed() } else { prop_oneof![5 => Just(0u8), 3 => Just(1u8), 1 => Just(2u8)].boxed() }, n + 1),
                 )
                     .prop_map(move |(geoms, fins)| Workload {
                         ty,
@@ -155,7 +156,8 @@ impl Prop for Crash {
         "proptest generates workloads (type, 1-5 shapes, 0-2 finalize calls before each shape and at the end, drop); one clean run on \
          logging destinations gives the op sequences; then EVERY crash state of the .shp (each op prefix x each byte cut inside the next \
          write) is crossed with crash states of the .shx (quick: 16 evenly spread + both ends; thorough: all when the product is small, \
-         else 256). For each persisted image pair a reader without and with index must fail to open or yield a prefix of the shapes \
+         else 256), and EVERY .shx crash state with as many evenly spread .shp states; one workload in twelve has 130-200 points in a part, one \
+         in twelve 40-80 shapes. For each persisted image pair a reader without and with index must fail to open or yield a prefix of the shapes \
          written (bit view), read_nth(i) must be None/Err or the i-th shape, never a panic; at or after the k-th completed finalize on \
          the .shp at least the shapes written before it are readable. Inner evaluations = image pairs. Non-trivial: a workload with a \
          finalize followed by further writes (cuts then fall into header rewrites with completed finalizes before them)"
@@ -176,6 +178,9 @@ impl Prop for Crash {
 }
 
 impl RandomProp for Crash {
+    fn max_shrink_iters() -> u32 {
+        150
+    }
     fn strategy(env: &Env) -> BoxedStrategy<Workload> {
         workload(5, if env.thorough() { 0 } else { 16 })
     }
@@ -308,7 +313,41 @@ fn crash_k<K: Kind>(w: &Workload, ctx: &mut Ctx) -> Result<(), Fail> {
             pairs += 1;
         }
     }
+    // the transposed product: EVERY .shx crash state against a few .shp states (evenly spread, plus the complete file)
+    if !full {
+        let k = sample_n.max(2);
+        let mut shp_pick: Vec<usize> = (0..k).map(|i| i * (shp_states.len() - 1) / (k - 1)).collect();
+        shp_pick.dedup();
+        let mut si2 = Imager::new(&shp_log);
+        let shp_images: Vec<(usize, Vec<u8>)> = shp_pick.iter().map(|i| (*i, si2.at(shp_states[*i]))).collect();
+        let mut xi2 = Imager::new(&shx_log);
+        for xst in shx_states.iter().copied() {
+            let ximg = xi2.at(xst);
+            for (si_, img) in &shp_images {
+                let sst = shp_states[*si_];
+                let what2 = format!("crash after {} .shp ops + {} bytes / {} .shx ops + {} bytes", sst.0, sst.1, xst.0, xst.1);
+                let res = guard(|| -> Result<(), Fail> {
+                    match ShapeReader::with_shx(Cursor::new(&img[..]), Cursor::new(&ximg[..])) {
+                        Err(_) => Ok(()),
+                        Ok(mut r) => {
+                            read_prefix(&format!("{}, with index", what2), &mut r, &expect)?;
+                            Ok(())
+                        }
+                    }
+                });
+                match res {
+                    Ok(r) => r?,
+                    Err(p) => fail!("panic", "{}, reader with index panics: {}", what2, p),
+                }
+                pairs += 1;
+            }
+        }
+    }
     ctx.evals(pairs);
     ctx.class_n("shp-crash-states", shp_states.len() as u64);
+    ctx.class_n("shx-crash-states", shx_states.len() as u64);
+    if n >= 40 {
+        ctx.class("many-shapes-workload");
+    }
     Ok(())
 }
